@@ -193,6 +193,33 @@ impl<'a> SendLastStateProofProcess<'a> {
                 verifiable_headers[(reorg_count - 1)..=reorg_count].iter()
             ));
         }
+        // The compact target is the same in an epoch, and its change between epochs is limited:
+        // also for the last header, and also when there are no sampled headers.
+        for pair in headers[(reorg_count + sampled_count)..]
+            .iter()
+            .chain(Some(last_header.header()))
+            .collect::<Vec<_>>()
+            .windows(2)
+        {
+            match verify_tau(
+                pair[0].epoch(),
+                pair[0].compact_target(),
+                pair[1].epoch(),
+                pair[1].compact_target(),
+                TAU,
+            ) {
+                Ok(true) => {}
+                Ok(false) => {
+                    let errmsg = format!(
+                        "failed to verify the compact target of block#{}",
+                        pair[1].number()
+                    );
+                    return StatusCode::InvalidCompactTarget.with_context(errmsg);
+                }
+                Err(status) => return status,
+            }
+        }
+
         // Verify MMR proof
         return_if_failed!(verify_mmr_proof(
             self.protocol.mmr_activated_epoch(),
